@@ -32,6 +32,33 @@ if os.path.exists(oblj):
             hits[v].pop(c, None)            # the full check of that property supersedes its structural-only run
             if rc == 1: hits[v][c] = [x.strip()[3:] for x in lines] or ["(violation)"]
             elif rc not in (0, 1): hits[v][c] = [f"{c}.analysis exit={rc}"]
+# --carry-obl: for variants that the OBL JSON does not cover, the abstract-interpretation rules (C04.f, C06.a, C07.a, C17.f: unchanged engine) keep the
+# verdict recorded in the committed detect.txt of the variant (written by an earlier full run); everything structural comes from STRUCT
+if "--carry-obl" in sys.argv:
+    import subprocess
+    OBL_RULES = ("C04.f", "C06.a", "C07.a", "C17.f")
+    covered = set(json.load(open(oblj)).keys()) if os.path.exists(oblj) else set()
+    extra_json = [a.split("=", 1)[1] for a in sys.argv if a.startswith("--obl-extra=")]
+    for ej in extra_json:
+        j2 = json.load(open(ej))
+        for v, per in j2.items():
+            covered.add(v)
+            for c, (rc, lines) in per.items():
+                if rc == -1: continue
+                keep = [x.strip()[3:] for x in lines if x.strip()[3:].startswith(OBL_RULES)]
+                if keep: hits[v][c] = hits[v].get(c, []) + keep
+    carried = 0
+    for g_ in ("seeded", "selftest", "benign"):
+        for dpath in glob.glob(os.path.join(ROOT, g_, "*", "patch.diff")):
+            v = os.path.basename(os.path.dirname(dpath))
+            if v in covered: continue
+            q = subprocess.run(["git", "-C", ROOT, "show", f"HEAD:{g_}/{v}/detect.txt"], capture_output=True, text=True)
+            if q.returncode != 0: continue
+            for l in q.stdout.splitlines():
+                m = re.match(r"\s+(C\d\d)\.(\S+) (.*)$", l)
+                if m and f"{m.group(1)}.{m.group(2)}" in OBL_RULES:
+                    hits[v][m.group(1)].append(f"{m.group(1)}.{m.group(2)} {m.group(3).strip()}"); carried += 1
+    print("carried O-engine verdicts from committed detect.txt:", carried, "lines; variants with a fresh full run:", len(covered))
 def where(v):
     for g in ("seeded", "selftest", "benign"):
         if os.path.isdir(os.path.join(ROOT, g, v)): return g
